@@ -78,9 +78,7 @@ def temporal_dag(G, u, v=None, start=None, end=None):
                          f"{[min(ids), max(ids)]}.")
 
     # adjusting temporal window
-    start = list([i >= start for i in ids]).index(True)
-    end = end if end == ids[-1] else list([i > end for i in ids]).index(True)
-    ids = ids[start:end+1]
+    ids = [i for i in ids if start <= i <= end]
 
     # creating empty DAG
     DG = nx.DiGraph()
